@@ -334,3 +334,95 @@ Proof.
   induction xs as [|x r IH]; intros sw ts HSR; [assumption|]. cbn [execs vexecs]. apply IH.
   destruct (exec sw x) as (sw' & o) eqn:E. cbn [fst]. exact (proj1 (exec_sim _ _ _ _ _ HSR E)).
 Qed.
+
+(* ---------------------------------------------------------------- consequences *)
+
+(* only exceptions the Python code really raises (or the harness's bad-case marker) come out:
+   never an internal model error - in particular not the ghost ownership check *)
+Definition lib_errors : list Z := [eImmutable; eKey; eMismatch; eNoMatch; eNotImmutable; eBadT; eBadCase].
+
+Lemma vexec_prim_errors sw ts x e :
+  SR sw ts -> snd (vexec_prim ts x) = Prelude.E e -> In e lib_errors.
+Proof.
+  intros HSR H. destruct x; cbn [vexec_prim] in H; try discriminate.
+  - destruct (Z.to_nat t <? 3)%nat; cbn in H; [|discriminate]. inversion H. cbn. tauto.
+  - unfold v_with in H. pose proof (SR_tree sw ts (Z.to_nat ti) HSR) as Ht.
+    destruct (nth_error ts (Z.to_nat ti)) as [b|]; [|inversion H; cbn; tauto].
+    destruct (nth_error (sw_trees sw) (Z.to_nat ti)); [|contradiction]. destruct Ht as (_ & Hbwf & _).
+    unfold insert_element in H. destruct (b_immut b) eqn:Eim.
+    + cbn in H. inversion H. cbn. tauto.
+    + destruct (insert_element_spec_proof b (k, v) (match io with Some x => x | None => b_inorder b end) Hbwf Eim) as (b' & Hi & _).
+      unfold insert_element in Hi. rewrite Eim in Hi. rewrite Hi in H. cbn in H.
+      destruct report; [|discriminate]. destruct (find_sorted k (elements (b_root b))); discriminate.
+  - unfold v_with in H. pose proof (SR_tree sw ts (Z.to_nat ti) HSR) as Ht.
+    destruct (nth_error ts (Z.to_nat ti)) as [b|]; [|inversion H; cbn; tauto].
+    destruct (nth_error (sw_trees sw) (Z.to_nat ti)); [|contradiction]. destruct Ht as (_ & Hbwf & _).
+    unfold delete_btree in H. destruct (b_immut b) eqn:Eim.
+    + cbn in H. inversion H. cbn. tauto.
+    + destruct (delete_btree_spec_proof b k exact Hbwf Eim) as (b' & Hi & _).
+      unfold delete_btree in Hi. rewrite Eim in Hi. rewrite Hi in H. cbn [bind v_mutate snd] in H.
+      destruct mode as [|[|]]; [| |discriminate];
+        destruct (dspec exact (find_sorted k (elements (b_root b)))); cbn in H; try discriminate; inversion H; cbn; tauto.
+  - unfold v_with in H. destruct (nth_error ts (Z.to_nat ti)) as [b|]; [discriminate|inversion H; cbn; tauto].
+  - unfold v_with in H. destruct (nth_error ts (Z.to_nat ti)) as [b|]; [|inversion H; cbn; tauto].
+    destruct (b_immut b); [discriminate|]. inversion H; cbn; tauto.
+Qed.
+
+Lemma vexec_errors sw ts x e :
+  SR sw ts -> snd (vexec ts x) = Prelude.E e -> In e lib_errors.
+Proof.
+  intros HSR H. destruct x; cbn [vexec] in H; try (exact (vexec_prim_errors sw ts _ e HSR H)).
+  - destruct (v_lookup ts ti k); [exact (vexec_prim_errors sw ts _ e HSR H)|discriminate].
+  - destruct (v_first ts ti); [exact (vexec_prim_errors sw ts _ e HSR H)|discriminate].
+  - discriminate.
+  - destruct (v_lookup ts ti k); [discriminate|exact (vexec_prim_errors sw ts _ e HSR H)].
+Qed.
+
+(* the store world is an image of the value-level trees: same parameters, and reading the store
+   from a tree's root pointer (abs) gives exactly the value-level tree *)
+Definition represents (sw : sworld) (ts : list btree) : Prop :=
+  length (sw_trees sw) = length ts /\
+  forall k sb b, nth_error (sw_trees sw) k = Some sb -> nth_error ts k = Some b ->
+    sb_t sb = b_t b /\ sb_size sb = b_size b /\ sb_immut sb = b_immut b /\ sb_inorder sb = b_inorder b /\
+    bwf b /\
+    exists fuel, forall f, (fuel <= f)%nat -> abs f (sw_store sw) (sb_root sb) = Some (b_root b).
+
+Lemma SR_represents sw ts : SR sw ts -> represents sw ts.
+Proof.
+  intros (_ & Hlen & Hrel). split; [assumption|]. intros k sb b H1 H2.
+  destruct (Hrel k sb b H1 H2) as ((Ha & Hb & Hc & Hd & fp & Hr) & Hbwf).
+  repeat split; try assumption; try apply Hbwf. exact (rep_abs _ _ _ _ Hr).
+Qed.
+
+(* Copy-on-write isolation, full statement. *)
+Theorem cow_isolated_full xs x w' o :
+  let w := execs (mkSW [] []) xs in
+  let ts := vexecs [] xs in
+  exec w x = (w', o) ->
+  represents w ts /\
+  represents w' (fst (vexec ts x)) /\
+  o = snd (vexec ts x) /\
+  (forall e, o = Prelude.E e -> In e lib_errors) /\
+  forall k bk, target x <> Some k -> nth_error (sw_trees w) k = Some bk ->
+    nth_error (sw_trees w') k = Some bk /\
+    forall fuel, abs fuel (sw_store w') (sb_root bk) = abs fuel (sw_store w) (sb_root bk).
+Proof.
+  intros w ts H. pose proof (store_refines_proof xs) as HSR. fold w ts in HSR.
+  destruct (exec_sim w ts x w' o HSR H) as (HSR' & Ho).
+  split; [now apply SR_represents|]. split; [now apply SR_represents|]. split; [assumption|]. split.
+  - intros e He. apply (vexec_errors w ts x e HSR). congruence.
+  - exact (cow_isolated_proof xs x w' o H).
+Qed.
+
+(* the ghost check in particular *)
+Corollary ghost_check_never_fires xs x :
+  snd (exec (execs (mkSW [] []) xs) x) <> Prelude.E eForeign.
+Proof.
+  destruct (exec (execs (mkSW [] []) xs) x) as (w' & o) eqn:E. cbn [snd]. intros ->.
+  destruct (cow_isolated_full xs x w' _ E) as (_ & _ & _ & Herr & _).
+  specialize (Herr eForeign eq_refl). cbn in Herr. unfold eForeign, eImmutable, eKey, eMismatch, eNoMatch, eNotImmutable, eBadT, eBadCase in Herr.
+  repeat (destruct Herr as [Herr|Herr]; [discriminate|]). exact Herr.
+Qed.
+
+Theorem store_represents_proof xs : represents (execs (mkSW [] []) xs) (vexecs [] xs).
+Proof. apply SR_represents, store_refines_proof. Qed.
